@@ -47,6 +47,8 @@ type vC01LZone struct {
 	rr       map[string][]dns.RR // lower(owner)|type
 	cuts     map[string]*vC01LCut
 	secure   bool // ground truth: every cut from the root down to here is a secure one and the zone signs
+	nsec3    bool // hashed denial (SHA-1, no salt, 0 iterations)
+	optout   bool // Opt-Out: insecure delegations are left out of the chain, every record carries the flag
 }
 
 type vC01LServer struct {
@@ -163,6 +165,133 @@ func (z *vC01LZone) nsecFor(name string) *dns.NSEC {
 	return &dns.NSEC{Hdr: dns.RR_Header{Name: owner, Rrtype: dns.TypeNSEC, Class: dns.ClassINET, Ttl: 60}, NextDomain: next, TypeBitMap: z.typesAt(owner)}
 }
 
+// ---- NSEC3 chain ----
+
+func vC01H(name string) string { return dns.HashName(strings.ToLower(name), dns.SHA1, 0, "") }
+
+// n3Names: owners and the empty non-terminals above them; under Opt-Out without the insecure delegations
+func (z *vC01LZone) n3Names() []string {
+	seen := map[string]bool{}
+	for _, o := range z.owners() {
+		if c, ok := z.cuts[o]; ok && z.optout && len(c.ds) == 0 {
+			continue
+		}
+		for n := o; dns.IsSubDomain(z.name, n); {
+			seen[n] = true
+			if n == strings.ToLower(z.name) {
+				break
+			}
+			off, end := dns.NextLabel(n, 0)
+			if end {
+				break
+			}
+			n = n[off:]
+		}
+	}
+	var l []string
+	for n := range seen {
+		l = append(l, n)
+	}
+	sort.Slice(l, func(i, j int) bool { return vC01H(l[i]) < vC01H(l[j]) })
+	return l
+}
+func (z *vC01LZone) typesAt3(name string) []uint16 {
+	name = strings.ToLower(name)
+	var ts []uint16
+	if c, ok := z.cuts[name]; ok {
+		ts = append(ts, dns.TypeNS)
+		if len(c.ds) > 0 {
+			ts = append(ts, dns.TypeDS, dns.TypeRRSIG)
+		}
+	}
+	for k := range z.rr {
+		p := strings.Split(k, "|")
+		if p[0] == name {
+			var t int
+			fmt.Sscan(p[1], &t)
+			ts = append(ts, uint16(t), dns.TypeRRSIG)
+		}
+	}
+	sort.Slice(ts, func(i, j int) bool { return ts[i] < ts[j] })
+	var out []uint16
+	for i, t := range ts {
+		if i == 0 || t != ts[i-1] {
+			out = append(out, t)
+		}
+	}
+	return out
+}
+
+// n3For: the record matching name, or the one whose interval covers its hash
+func (z *vC01LZone) n3For(name string) *dns.NSEC3 {
+	names := z.n3Names()
+	h := vC01H(name)
+	idx := len(names) - 1
+	for i, n := range names {
+		hn := vC01H(n)
+		if hn == h {
+			idx = i
+			break
+		}
+		if hn < h {
+			idx = i
+		}
+	}
+	owner := names[idx]
+	flags := uint8(0)
+	if z.optout {
+		flags = 1
+	}
+	return &dns.NSEC3{Hdr: dns.RR_Header{Name: vC01H(owner) + "." + z.name, Rrtype: dns.TypeNSEC3, Class: dns.ClassINET, Ttl: 60}, Hash: dns.SHA1, Flags: flags,
+		Iterations: 0, SaltLength: 0, Salt: "", HashLength: 20, NextDomain: vC01H(names[(idx+1)%len(names)]), TypeBitMap: z.typesAt3(owner)}
+}
+func (z *vC01LZone) inChain(name string) bool {
+	for _, n := range z.n3Names() {
+		if n == strings.ToLower(name) {
+			return true
+		}
+	}
+	return false
+}
+
+// closest encloser of name inside the chain's name set, and the next closer name
+func (z *vC01LZone) encloser(name string) (ce, nc string) {
+	name = strings.ToLower(name)
+	labels := dns.SplitDomainName(name)
+	for i := 0; i <= len(labels); i++ {
+		anc := "."
+		if i < len(labels) {
+			anc = strings.Join(labels[i:], ".") + "."
+		}
+		if dns.IsSubDomain(z.name, anc) && (z.exists(anc) && (!z.nsec3 || z.inChain(anc))) {
+			ce = anc
+			if i > 0 {
+				nc = strings.Join(labels[i-1:], ".") + "."
+			}
+			return
+		}
+	}
+	return strings.ToLower(z.name), name
+}
+
+// denial records for name, de-duplicated by owner: NSEC3 = encloser match + covers, NSEC = the covering/matching link(s)
+func (s *vC01LServer) deny(z *vC01LZone, names ...string) []dns.RR {
+	var out []dns.RR
+	seen := map[string]bool{}
+	for _, n := range names {
+		if n == "" {
+			continue
+		}
+		set := s.nsec(z, n)
+		if len(set) == 0 || seen[set[0].Header().Name] {
+			continue
+		}
+		seen[set[0].Header().Name] = true
+		out = append(out, set...)
+	}
+	return out
+}
+
 func (s *vC01LServer) sign(z *vC01LZone, set []dns.RR) []dns.RR {
 	if !z.signed || len(set) == 0 {
 		return set
@@ -188,7 +317,37 @@ func (s *vC01LServer) nsec(z *vC01LZone, name string) []dns.RR {
 	if !z.signed {
 		return nil
 	}
+	if z.nsec3 {
+		return s.sign(z, []dns.RR{z.n3For(name)})
+	}
 	return s.sign(z, []dns.RR{z.nsecFor(name)})
+}
+
+// denial for a name that has no record of its own in the chain (NXDOMAIN, opted-out cut, wildcard next closer)
+func (s *vC01LServer) denyAbsent(z *vC01LZone, name string, withWildcard bool) []dns.RR {
+	if !z.nsec3 {
+		set := s.nsec(z, name)
+		if withWildcard {
+			ce, _ := z.encloser(name)
+			wc := "*." + ce
+			if ce == "." {
+				wc = "*."
+			}
+			if w2 := s.nsec(z, wc); len(w2) > 0 && len(set) > 0 && !strings.EqualFold(w2[0].Header().Name, set[0].Header().Name) {
+				set = append(set, w2...)
+			}
+		}
+		return set
+	}
+	ce, nc := z.encloser(name)
+	if withWildcard {
+		wc := "*." + ce
+		if ce == "." {
+			wc = "*."
+		}
+		return s.deny(z, ce, nc, wc)
+	}
+	return s.deny(z, ce, nc)
 }
 
 func (s *vC01LServer) hosted(name string) *vC01LZone {
@@ -241,6 +400,8 @@ func (s *vC01LServer) reply(r *dns.Msg) *dns.Msg {
 			m.Ns = append(m.Ns, &dns.NS{Hdr: dns.RR_Header{Name: c.name, Rrtype: dns.TypeNS, Class: dns.ClassINET, Ttl: 3600}, Ns: c.nsHost})
 			if len(c.ds) > 0 {
 				m.Ns = append(m.Ns, s.sign(z, c.ds)...)
+			} else if z.nsec3 && !z.inChain(cn) {
+				m.Ns = append(m.Ns, s.denyAbsent(z, cn, false)...)
 			} else {
 				m.Ns = append(m.Ns, s.nsec(z, cn)...)
 			}
@@ -256,6 +417,8 @@ func (s *vC01LServer) reply(r *dns.Msg) *dns.Msg {
 	case q.Qtype == dns.TypeDS && z.cuts[qn] != nil:
 		if c := z.cuts[qn]; len(c.ds) > 0 {
 			m.Answer = s.sign(z, c.ds)
+		} else if z.nsec3 && !z.inChain(qn) {
+			m.Ns = append(s.soa(z), s.denyAbsent(z, qn, false)...)
 		} else {
 			m.Ns = append(s.soa(z), s.nsec(z, qn)...)
 		}
@@ -304,13 +467,15 @@ func (s *vC01LServer) reply(r *dns.Msg) *dns.Msg {
 				c.Header().Name = q.Name
 				m.Answer = append(m.Answer, c)
 			}
-			m.Ns = s.nsec(z, qn)
+			if z.nsec3 {
+				_, nc := z.encloser(qn)
+				m.Ns = s.nsec(z, nc)
+			} else {
+				m.Ns = s.nsec(z, qn)
+			}
 		} else {
 			m.Rcode = dns.RcodeNameError
-			m.Ns = append(s.soa(z), s.nsec(z, qn)...)
-			if w2 := s.nsec(z, wc); len(w2) > 0 && !strings.EqualFold(w2[0].Header().Name, z.nsecFor(qn).Hdr.Name) {
-				m.Ns = append(m.Ns, w2...)
-			}
+			m.Ns = append(s.soa(z), s.denyAbsent(z, qn, true)...)
 		}
 	}
 	if s.tamper != nil {
@@ -563,6 +728,26 @@ func vC01BuildLab(t *testing.T, r *rand.Rand, topo string) (*vC01Lab, bool) {
 		lab.delegate(root, tld, s1, "secure")
 		lab.delegate(tld, zone, s1, "insecure")
 		lab.host(s1, tld, zone)
+	case "nsec3": // hashed denial in the leaf zone
+		zone := lab.newZone("zone.tld.", true)
+		zone.nsec3 = true
+		lab.populate(zone)
+		lab.delegate(root, tld, s1, "secure")
+		lab.delegate(tld, zone, s2, "secure")
+		lab.host(s1, tld)
+		lab.host(s2, zone)
+	case "nsec3-optout": // tld. denies with Opt-Out NSEC3; zone.tld. is an insecure delegation left out of the chain; sec.tld. is secure
+		tld.nsec3, tld.optout = true, true
+		zone := lab.newZone("zone.tld.", false)
+		lab.populate(zone)
+		sec := lab.newZone("sec.tld.", true)
+		lab.populate(sec)
+		lab.delegate(root, tld, s1, "secure")
+		lab.delegate(tld, zone, s2, "insecure")
+		lab.delegate(tld, sec, s3, "secure")
+		lab.host(s1, tld)
+		lab.host(s2, zone)
+		lab.host(s3, sec)
 	case "shared-island": // ONE server: tld. signed, zone.tld. INSECURE, sub.zone.tld. signed with its DS in the unsigned zone
 		zone := lab.newZone("zone.tld.", false)
 		lab.populate(zone)
@@ -740,10 +925,10 @@ func (l *vC01Lab) install(kind, target string) bool {
 			}
 			var out []dns.RR
 			for _, rr := range m.Ns {
-				if rr.Header().Rrtype == dns.TypeNSEC {
+				if t := rr.Header().Rrtype; t == dns.TypeNSEC || t == dns.TypeNSEC3 {
 					continue
 				}
-				if sg, ok := rr.(*dns.RRSIG); ok && sg.TypeCovered == dns.TypeNSEC {
+				if sg, ok := rr.(*dns.RRSIG); ok && (sg.TypeCovered == dns.TypeNSEC || sg.TypeCovered == dns.TypeNSEC3) {
 					continue
 				}
 				out = append(out, rr)
@@ -913,14 +1098,26 @@ func TestVerifC01Lab(t *testing.T) {
 		return []tq{{"www." + zone, dns.TypeA, 0}, {"alias." + zone, dns.TypeA, 0}, {"nx." + zone, dns.TypeA, 3}, {"www." + zone, dns.TypeAAAA, 0},
 			{"foo.wild." + zone, dns.TypeA, 0}, {"x.dn." + zone, dns.TypeA, 0}, {"real.wild." + zone, dns.TypeA, 0}, {zone, dns.TypeSOA, 0}}
 	}
-	topos := []string{"separate", "separate", "insecure-child", "wrongds", "shared-secure", "shared-secure", "shared-insecure", "shared-island"}
+	topos := []string{"separate", "separate", "insecure-child", "wrongds", "shared-secure", "shared-secure", "shared-insecure", "shared-island", "nsec3", "nsec3-optout"}
 	tampers := []string{"none", "none", "strip-sigs", "alter-a", "expired", "signer-name", "bitflip", "labels", "forged-untrusted-key", "dnskey-extra-key",
 		"ds-swap", "ds-drop", "nsec-drop", "nxdomain-forged", "inject-foreign", "island-hijack", "no-anchor", "wildcard-replay", "wildcard-replay-decoy", "parent-denial-nxdomain", "parent-denial-nodata"}
+	// thorough tier: the full product topology x tamper script x question, instead of a sample of it
+	exhaustive := os.Getenv("VERIF_TIER") == "thorough"
+	nq := 8
+	if exhaustive {
+		n = len(topos) * len(tampers) * nq
+	}
 	for i := 0; i < n; i++ {
 		topo := topos[i%len(topos)]
 		tam := tampers[(i/len(topos)+i)%len(tampers)]
 		if i < len(topos) {
 			tam = "none"
+		}
+		forcedQ := -1
+		if exhaustive {
+			topo = topos[i%len(topos)]
+			tam = tampers[(i/len(topos))%len(tampers)]
+			forcedQ = (i / (len(topos) * len(tampers))) % nq
 		}
 		target := "zone.tld."
 		if topo == "shared-island" {
@@ -929,21 +1126,27 @@ func TestVerifC01Lab(t *testing.T) {
 		if r.Intn(5) == 0 && topo != "shared-island" && tam != "ds-swap" && tam != "ds-drop" {
 			target = "tld."
 		}
+		if topo == "nsec3-optout" {
+			target = []string{"tld.", "tld.", "zone.tld.", "sec.tld."}[r.Intn(4)]
+		}
 		qs := queries(target)
 		q := qs[r.Intn(len(qs))]
-		if tam == "nsec-drop" {
+		if forcedQ >= 0 {
+			q = qs[forcedQ]
+		}
+		if tam == "nsec-drop" && forcedQ < 0 {
 			q = qs[2+r.Intn(2)]
 		}
-		if tam == "wildcard-replay" || tam == "wildcard-replay-decoy" {
+		if forcedQ < 0 && (tam == "wildcard-replay" || tam == "wildcard-replay-decoy") {
 			q = qs[6]
 		}
-		if tam == "parent-denial-nodata" {
+		if forcedQ < 0 && tam == "parent-denial-nodata" {
 			q = qs[7]
 		}
-		if tam == "parent-denial-nxdomain" {
+		if forcedQ < 0 && tam == "parent-denial-nxdomain" {
 			q = qs[0]
 		}
-		if tam == "nxdomain-forged" || tam == "alter-a" || tam == "forged-untrusted-key" || tam == "dnskey-extra-key" || tam == "island-hijack" || tam == "ds-swap" || tam == "ds-drop" || tam == "inject-foreign" || tam == "expired" {
+		if forcedQ < 0 && (tam == "nxdomain-forged" || tam == "alter-a" || tam == "forged-untrusted-key" || tam == "dnskey-extra-key" || tam == "island-hijack" || tam == "ds-swap" || tam == "ds-drop" || tam == "inject-foreign" || tam == "expired") {
 			q = qs[0]
 		}
 		lab, ok := vC01BuildLab(t, r, topo)
@@ -986,7 +1189,8 @@ func TestVerifC01Lab(t *testing.T) {
 				continue
 			}
 			dataOK := lab.dataOK(m, scn)
-			g := fmt.Sprintf("(mk_labgt %s %s %d %s)", vC01Bool(tz.secure), vC01Bool(tam == "none"), q.expect, vC01Bool(anchor))
+			adOptional := tz.optout && (q.expect == dns.RcodeNameError || strings.HasPrefix(q.q, "foo.wild."))
+			g := fmt.Sprintf("(mk_labgt %s %s %d %s %s)", vC01Bool(tz.secure), vC01Bool(tam == "none"), q.expect, vC01Bool(anchor), vC01Bool(adOptional))
 			b := fmt.Sprintf("(mk_labobs %s %s %s %s %d %s %s %s %s)", vC01Bool(cd), vC01Bool(do), vC01Bool(ad), vC01Bool(ed), m.Rcode,
 				vC01Bool(m.AuthenticatedData), vC01Bool(vC01HasEDE(m)), vC01Bool(dataOK), vC01Bool(tz.secure))
 			fkey := ""
